@@ -41,11 +41,11 @@ def gen_case(rng, thorough):
     ]
     wk = rk = None
     if prot in ("write", "both", "write+ro"):
-        wk = "W1"; ops.append({"op": "addFact", "id": "", "fact": {"!writeKey": wk}})
+        wk = "W1"; ops.append({"op": "addFact", "id": rng.choice(["", "", "mykey"]), "fact": {"!writeKey": wk}})   # a property fact is stored under its canonical id whatever id is given
     if prot in ("read", "both"):
-        rk = "R1"; ops.append({"op": "addFact", "id": "", "fact": {"!readKey": rk}, "wk": wk or ""})
+        rk = "R1"; ops.append({"op": "addFact", "id": rng.choice(["", "", "rk1"]), "fact": {"!readKey": rk}, "wk": wk or ""})
     if prot == "disabled":
-        ops.append({"op": "addFact", "id": "", "fact": {"!enabled": rng.choice(["no", "false", "off"])}})
+        ops.append({"op": "addFact", "id": rng.choice(["", "", "sw"]), "fact": {"!enabled": rng.choice(["no", "false", "off"])}})
     if prot in ("readonly", "write+ro"):
         ops.append({"op": "setReadOnly", "v": True})
     body = []
